@@ -19,7 +19,7 @@ KANI_BACKEND = "kani-0.68/cbmc-6.11/cadical"
 
 class Harness:
     def __init__(self, name, props, owner, text, kind="proof", bound=None, tiers=("quick", "thorough"),
-                 timeout=900, mem_gb=20, covers=0, extra_args=(), functions=(), mod=""):
+                 timeout=900, mem_gb=20, covers=0, extra_args=(), functions=(), mod="", must_panic_in=None):
         self.name = name
         self.props = props
         self.owner = owner
@@ -32,6 +32,9 @@ class Harness:
         self.covers = covers        # number of kani::cover! that must be satisfied
         self.extra_args = list(extra_args)
         self.functions = list(functions) or [owner]
+        # "always panics" harnesses: verification must FAIL, every failed check must lie in a function whose
+        # name contains this string, and the VERIF-MARKER-NOT-PANICKED assertion must not be among them
+        self.must_panic_in = must_panic_in
         self.mod = mod              # module path of the file the harness module is appended to
 
     @property
@@ -165,6 +168,21 @@ def classify(parsed, out, rc, harness):
     if parsed["status"] is None:
         tail = out[-1500:]
         return UNDECIDED, "no verification verdict (rc=%s): %s" % (rc, tail)
+    if harness.must_panic_in:
+        marker = [f for f in parsed["failed"] if "VERIF-MARKER-NOT-PANICKED" in f["desc"]]
+        other = [f for f in parsed["failed"] if "VERIF-MARKER" not in f["desc"] and harness.must_panic_in not in f["fn"]]
+        limits = [f for f in other if any(re.search(p, f["desc"], re.I) for p in _TOOL_LIMIT_PATTERNS)]
+        if marker:
+            return VIOLATED, "the call returned instead of panicking: " + "; ".join(
+                "%s @ %s:%d" % (f["desc"], f["file"], f["line"]) for f in marker)
+        if limits:
+            return UNDECIDED, "tool limit: " + "; ".join(f["desc"] for f in limits[:4])
+        if other:
+            return VIOLATED, "unexpected failure outside %s: %s" % (harness.must_panic_in, "; ".join(
+                "%s @ %s:%d in %s" % (f["desc"], f["file"], f["line"], f["fn"]) for f in other[:4]))
+        if parsed["status"] == "ok" or not parsed["failed"]:
+            return UNDECIDED, "no panic was reachable at all (vacuous harness?)"
+        return DISCHARGED, ""
     if parsed["status"] == "ok":
         if harness.covers and (parsed["covers"] is None or parsed["covers"][0] < harness.covers):
             return UNDECIDED, "cover properties not all satisfied: %s (vacuity guard)" % (parsed["covers"],)
